@@ -39,6 +39,7 @@ THEOREMS = [
     "C17.generate_labels_fresh",
     "C17.generate_refuses_present_id",
     "C17.generate_refuses_taken_label",
+    "C17.generate_refuses_unencodable",
     "C17.generate_error_kind",
     "C17.accepted_labels_pass_add_revision",
     "C17.stepCall_refused",
@@ -60,7 +61,7 @@ TRUSTED = [
 ]
 RULE = (
     "(a) sequences of 3-8 generate_revision/command.revision/command.merge calls per scratch directory x "
-    "{file_template, truncate_slug_length, one|two version_locations, recursive_version_locations}; version_path none|location|"
+    "{file_template, truncate_slug_length, one|two version_locations, recursive_version_locations, output_encoding default|ascii|utf-8}; version_path none|location|"
     "sub-directory|sibling with a location's name as prefix|unrelated, absolute|relative; arguments: message class, rev_id given|generated, "
     "head selection (default, head id, partial id, label@head, base, heads, several heads, spliced non-head, non-head without splice), "
     "branch label (fresh|taken|tuple), depends_on (id|partial id|label|label@head|label@id|label@partial|head|missing|several); "
@@ -309,13 +310,17 @@ def gen_date(rng):
 # model ops
 
 
-def model_args(call, rid, env=None):
+def model_args(call, rid, env=None, req=None):
     head = call.get("head")
     extra = {}
+    if env is not None and req is not None:
+        # what the template is handed: message, id, resolved down revisions, labels, written dependencies
+        msg = call.get("message") if call.get("message") is not None else "empty message"
+        extra["encodable"] = env.encodable([msg, rid] + list(req["down"]) + list(req["labels"]) + list(req["deps"]))
     if env is not None:
         vp, locs = env.model_paths(call.get("version_path"))
-        extra = {"locations": locs, "tzOk": env.tz_ok(),
-                 "sqlNoEnv": bool(call.get("sql")) and call.get("kind") == "revision" and not env.revision_environment}
+        extra.update({"locations": locs, "tzOk": env.tz_ok(),
+                      "sqlNoEnv": bool(call.get("sql")) and call.get("kind") == "revision" and not env.revision_environment})
         if vp is not None:
             extra["versionPath"] = vp
     return {
@@ -500,8 +505,11 @@ def run_sequences(ctx, n_seq, rng_name="seq", f12=False):
         sourceless = rng.random() < 0.15
         rev_env = rng.random() < 0.07
         hooks = rng.random() < 0.08
+        # an output_encoding that cannot represent every message (a call whose text does not fit must be refused cleanly)
+        enc = None if f12 else rng.choice([None] * 8 + ["ascii", "ascii", "utf-8"])
         env = G.Scratch(file_template=tmpl, trunc=trunc, two_locations=two, recursive=rec, timezone=tz, sourceless=sourceless,
-                        revision_environment=rev_env, hooks=hooks)
+                        revision_environment=rev_env, hooks=hooks, output_encoding=enc)
+        ctx.hist("options", "output_encoding=%s" % enc)
         env.real_date = real_date
         ctx.hist("config", "template=%s trunc=%s locations=%d" % (tmpl, trunc, 2 if two else 1))
         ctx.hist("recursive_version_locations", rec)
@@ -579,7 +587,7 @@ def run_one_sequence(ctx, rng, env, n_calls, f12, scripted=None):
             seg_hist0, seg_calls, seg_records = G.hist_of_map(fresh.revision_map), [], []
         out, fresh_after = check_call(ctx, env, sd, None, seg_calls, call, rid, dt, fresh, "f12" if f12 else "main")
         out["dt"] = out.get("real_dt") or dt
-        seg_calls.append(model_args(call, rid, env))
+        seg_calls.append(model_args(call, rid, env, out.get("req")))
         seg_records.append(out)
         accepted = fresh_after is not None
         if accepted:
